@@ -188,6 +188,9 @@ func genC07(t *rapid.T) (c07Case, gen.MutationInfo, string) {
 			kind = gen.Kinds[gen.Uniform(t, "kind", len(gen.Kinds))]
 		}
 		doc := v.Instance(kind)
+		if gen.Pct(t, "xorder", 30) {
+			decorateXOrder(t, doc) // ordering extensions, also spelled X-Order: the fixed point must not depend on their case
+		}
 		if src == 3 {
 			// unmutated (but possibly for a target that is not the document's kind)
 			return c07Case{Target: target, Text: string(gen.Render(doc)), CaseFold: gen.CaseFoldCollision(doc)}, gen.MutationInfo{}, "plain"
